@@ -59,6 +59,37 @@ type c06Case struct {
 	grW                                               map[int32]int64
 	metrics                                           []c06Metric
 	budget                                            int64
+	acct                                              *c06Acct // accounted-row family (nil: every row is an ordinary row of its metric)
+}
+
+// c06Acct: the accounted-row family. Agent and aggregator hand the sampler rows that are *accounted* to another
+// metric than their own key names (ingestion-status rows about user metric M: SamplingMultiItemPair.MetricID = M,
+// Item.Key.Metric = the built-in metric, Item.MetricMeta = the built-in's meta). The hierarchy coordinates
+// (namespace, group, weight, fair key) of a partition are those of the accounted metric, whichever row of the
+// metric the sampler happens to look at first. The family converts rows of one target metric of an ordinary case
+// into such rows (the partition tree and the reference stay exactly those of the ordinary case) and lets every
+// row carry the meta of its own Key.Metric, as the real callers do.
+type c06Acct struct {
+	target  int  // index into metrics: the metric the rows are accounted to
+	own     int  // whose meta the converted rows carry: -1 = a built-in-like status metric, i >= 0 = metrics[i] (i != target)
+	row     int  // which row of the target (in presentation order) is converted; -1 = all of them
+	reverse bool // presentation order: rows are handed to Add in reverse
+}
+
+func (a *c06Acct) String() string {
+	own := "built-in status metric (default namespace, built-in group, weight 1, no fair key)"
+	if a.own >= 0 {
+		own = fmt.Sprintf("metrics[%d]", a.own)
+	}
+	rows := "all rows"
+	if a.row >= 0 {
+		rows = fmt.Sprintf("row #%d", a.row)
+	}
+	order := "rows presented metric by metric"
+	if a.reverse {
+		order = "rows presented in reverse"
+	}
+	return fmt.Sprintf(" accounted[%s of metrics[%d] has Key.Metric/MetricMeta of %s; every row carries the meta of its own Key.Metric; %s]", rows, a.target, own, order)
 }
 
 func (c *c06Case) String() string {
@@ -75,6 +106,9 @@ func (c *c06Case) String() string {
 			fmt.Fprintf(&sb, " fixedBudget=%d", m.fixed)
 		}
 		sb.WriteString("}")
+	}
+	if c.acct != nil {
+		sb.WriteString(c.acct.String())
 	}
 	return sb.String()
 }
@@ -122,6 +156,8 @@ type c06Ctx struct {
 	fairIdx   []int
 	ob        []byte
 	buffers   SamplerBuffers // reused between executions, as the agent and the aggregator do
+	status    format.MetricMetaValue
+	order     []int
 }
 
 func c06NewCtx() *c06Ctx {
@@ -405,6 +441,39 @@ func c06RunCase(x *c06Ctx, c *c06Case) (res c06Result) {
 		}
 	}
 	x.rows = rows
+	order := x.order[:0]
+	for i := range rows {
+		order = append(order, i)
+	}
+	if a := c.acct; a != nil {
+		// every row carries the meta of its own Key.Metric (as on the agent and the aggregator) ...
+		for i := range rows {
+			rows[i].item.MetricMeta = meta.metrics[rows[i].metric]
+		}
+		// ... and the converted rows of the target are rows of another metric that are accounted to the target
+		x.status = format.MetricMetaValue{MetricID: format.BuiltinMetricIDIngestionStatus, NamespaceID: format.BuiltinNamespaceIDDefault, GroupID: format.BuiltinGroupIDBuiltin, EffectiveWeight: 1}
+		ownMeta := &x.status
+		if a.own >= 0 {
+			ownMeta = meta.metrics[c.metrics[a.own].id]
+		}
+		nth := 0
+		for i := range rows {
+			if rows[i].metric != c.metrics[a.target].id {
+				continue
+			}
+			if a.row < 0 || a.row == nth {
+				rows[i].item.Key.Metric = ownMeta.MetricID
+				rows[i].item.MetricMeta = ownMeta
+			}
+			nth++
+		}
+		if a.reverse {
+			for i, j := 0, len(order)-1; i < j; i, j = i+1, j-1 {
+				order[i], order[j] = order[j], order[i]
+			}
+		}
+	}
+	x.order = order
 	events := x.events[:0]
 	var npart int
 	cfg := SamplerConfig{
@@ -452,7 +521,7 @@ func c06RunCase(x *c06Ctx, c *c06Case) (res c06Result) {
 	}
 	s := NewSampler(cfg)
 	npart = len(s.partF)
-	for i := range rows {
+	for _, i := range order {
 		var fb uint32
 		for _, m := range c.metrics {
 			if m.id == rows[i].metric {
@@ -1060,15 +1129,15 @@ var c06CountOnly = os.Getenv("VERIF_C06_COUNT") != ""
 var c06CountMu sync.Mutex
 var c06Counts = map[string]int64{}
 
-func c06CountBy(fixed, quota bool, leaves int) {
+func c06CountBy(fixed, quota, acct bool, leaves int) {
 	c06CountMu.Lock()
-	c06Counts[fmt.Sprintf("fixed=%v quota=%v leaves=%d", fixed, quota, leaves)]++
+	c06Counts[fmt.Sprintf("fixed=%v quota=%v accounted=%v leaves=%d", fixed, quota, acct, leaves)]++
 	c06CountMu.Unlock()
 }
 
 func TestVerifC06(t *testing.T) {
 	rep := mc.NewReport("C06")
-	rep.Rule = "every hierarchy shape (1-2 namespaces x 1-2 groups x 1-2 metrics x plain / 1 / 2 fair-key values, unordered siblings) with at most L leaves, plus six wide shapes with three siblings at one level under every ordered weight triple; every leaf size from the alphabet (rows x row size); every weight from W for every node that has a sibling under the option flags; every budget; all 8 combinations of SampleNamespaces/SampleGroups/SampleKeys; plus one fixed-budget metric (SampleBudgets) and quota mode (SampleQuota, hosts with unequal reported sizes). Non-trivial = the bucket does not fit the budget and at least two metrics compete, so some partition is sampled while a sibling draws on the same parent budget"
+	rep.Rule = "every hierarchy shape (1-2 namespaces x 1-2 groups x 1-2 metrics x plain / 1 / 2 fair-key values, unordered siblings) with at most L leaves, plus six wide shapes with three siblings at one level under every ordered weight triple; every leaf size from the alphabet (rows x row size); every weight from W for every node that has a sibling under the option flags; every budget; all 8 combinations of SampleNamespaces/SampleGroups/SampleKeys; plus one fixed-budget metric (SampleBudgets) and quota mode (SampleQuota, hosts with unequal reported sizes); plus the accounted-row family: 2-leaf (thorough also 3-leaf) cases again with rows of every metric in turn being rows of another metric (a built-in status metric or every other metric of the case) accounted to it, every single row or all of them, two presentation orders, all rows carrying the meta of their own key. Non-trivial = the bucket does not fit the budget and at least two metrics compete, so some partition is sampled while a sibling draws on the same parent budget"
 	// row sizes are >= 2: a zero budget is clamped to 1 by the sampler, which would let exactly one 1-byte row
 	// through (real rows are never 1 byte: the key alone is larger)
 	sizes5 := []c06Size{{1, 2}, {2, 2}, {5, 2}, {1, 10}, {4, 10}}
@@ -1113,6 +1182,13 @@ func TestVerifC06(t *testing.T) {
 	for _, tr := range fixedTiers {
 		rep.Bounds[fmt.Sprintf("fixed_budget_mode_%d_leaves", tr.leaves)] = fmt.Sprintf("one metric with fixed budget from %v (SampleBudgets=true), leaf sizes %v, weights %v, budgets %v", fixedBudgets, tr.sizes, tr.weights, tr.budgets)
 	}
+	bAcct := mc.Pick([]int64{10, 20, 60}, []int64{4, 10, 20, 24, 60})
+	acctTiers := mc.Pick(
+		[]tier{{2, sizes3, w2, bAcct}},
+		[]tier{{2, sizes5, w3, bAcct}, {3, sizes2, w2, []int64{10, 60}}})
+	for _, tr := range acctTiers {
+		rep.Bounds[fmt.Sprintf("accounted_row_family_%d_leaves", tr.leaves)] = fmt.Sprintf("base: every shape with %d leaves, leaf sizes %v, weights %v, budgets %v, all 8 level-flag combinations; x every target metric x own meta of the converted rows in {built-in-like status metric, every other metric of the case} x converted rows in {%s, all rows of the target} x presentation order {metric by metric, reversed}; every row carries the meta of its own Key.Metric", tr.leaves, tr.sizes, tr.weights, tr.budgets, map[bool]string{true: "every single row of the target in turn", false: "the first row, the last row"}[tr.leaves <= 2])
+	}
 	for _, tr := range quotaTiers {
 		rep.Bounds[fmt.Sprintf("quota_mode_%d_leaves", tr.leaves)] = fmt.Sprintf("reported host sizes per leaf %v, weights %v, budgets %v", tr.hosts, tr.weights, tr.budgets)
 	}
@@ -1131,12 +1207,14 @@ func TestVerifC06(t *testing.T) {
 		weights              []int64
 		budgets              []int64
 		fixedMode, quotaMode bool
+		acctMode             bool // accounted-row family over this base
+		acctRows             bool // every single row of the target in turn (else: the first, the last, all)
 		lane, lanes          int
 	}
 	var jobs []job
 	addJob := func(j job) {
 		j.lanes = 1
-		if j.shape.leaves() >= 3 {
+		if j.shape.leaves() >= 3 || j.acctMode {
 			j.lanes = 8
 		}
 		for f := 0; f < 8; f++ {
@@ -1190,6 +1268,16 @@ func TestVerifC06(t *testing.T) {
 			}
 		}
 	}
+	// accounted-row family (see c06Acct): every case of the base below x every target metric x the converted rows
+	// carrying the meta of a built-in-like status metric or of every other metric of the case x which row of the
+	// target is converted (every single one in turn, or all of them) x two presentation orders
+	for _, tr := range acctTiers {
+		for _, sh := range c06Shapes(tr.leaves) {
+			if sh.leaves() == tr.leaves {
+				addJob(job{shape: sh, sizes: tr.sizes, weights: tr.weights, budgets: tr.budgets, acctMode: true, acctRows: tr.leaves <= 2})
+			}
+		}
+	}
 
 	var undecFree atomic.Int64
 	ctxs := make(chan *c06Ctx, 256)
@@ -1218,11 +1306,29 @@ func TestVerifC06(t *testing.T) {
 			}
 			if c06CountOnly {
 				execs++
-				c06CountBy(j.fixedMode, j.quotaMode, j.shape.leaves())
+				c06CountBy(j.fixedMode, j.quotaMode, j.acctMode, j.shape.leaves())
 				return
 			}
 			r := c06RunCase(x, c)
 			execs++
+			if c.acct != nil && len(r.viol) > 0 {
+				// attribute: a clause that holds for the same bucket when the converted rows are ordinary rows of the
+				// target metric, and fails only because some rows are accounted rows carrying another metric's meta
+				a := c.acct
+				c.acct = nil
+				r0 := c06RunCase(x, c)
+				c.acct = a
+				plain := map[string]bool{}
+				for _, v := range r0.viol {
+					plain[v.sig] = true
+				}
+				r = c06RunCase(x, c) // (row state of the ctx belongs to the last run)
+				for i := range r.viol {
+					if !plain[r.viol[i].sig] {
+						r.viol[i].sig = "C06:accounted-row-meta-decides-partition:" + strings.TrimPrefix(r.viol[i].sig, "C06:")
+					}
+				}
+			}
 			if r.undec {
 				undec++
 				if len(r.viol) == 0 {
@@ -1301,7 +1407,34 @@ func TestVerifC06(t *testing.T) {
 					c06EnumWeights(c, slots, j.weights, func() {
 						for _, b := range j.budgets {
 							c.budget = b
-							runOne(c)
+							if !j.acctMode {
+								runOne(c)
+								continue
+							}
+							for ti := range c.metrics {
+								nrows := 0
+								for _, k := range c.metrics[ti].keys {
+									nrows += k
+								}
+								for own := -1; own < len(c.metrics); own++ {
+									if own == ti {
+										continue
+									}
+									for row := -1; row < nrows; row++ {
+										if row == 0 && nrows == 1 {
+											continue // the only row: same as "all rows"
+										}
+										if !j.acctRows && row > 0 && row < nrows-1 {
+											continue
+										}
+										for _, rev := range []bool{false, true} {
+											c.acct = &c06Acct{target: ti, own: own, row: row, reverse: rev}
+											runOne(c)
+										}
+									}
+								}
+							}
+							c.acct = nil
 						}
 					})
 				})
